@@ -265,6 +265,13 @@ def r4_plumbing(ctx):
         parses = calls_norm(body, "str::parse") or [c for c in body.calls(True) if (c.norm or "").endswith("::parse")]
         okp = len(parses) >= 2 and all(var_name(o.of_operand(c.args[0])) == "destination.0" for c in parses)
         ctx.ob("R07.4", "client-encoder:host-literals", okp, parses[0].site if parses else "", "both literal parses read destination.0" if okp else "address literal parse does not read the requested host")
+        # the address bytes under each type byte are those of the literal parsed from destination.0, nothing derived from it
+        for fam, pty in (("Ipv4Addr", "Ipv4Addr"), ("Ipv6Addr", "Ipv6Addr")):
+            for c in [c for c in body.calls() if (c.norm or "").endswith(fam + "::octets")]:
+                recv = o.of_operand(c.args[0])
+                okf = is_call_term(recv, "::parse") and var_name(recv[3][0]) == "destination.0"
+                ctx.ob("R07.4", "client-encoder:%s-bytes-are-the-parsed-literal" % fam, okf, c.site, "octets() of parse::<%s>(destination.0)" % fam if okf else
+                       "the %s bytes that are encoded come from `%s`, not directly from the parsed destination literal: some addresses are rewritten on the way (e.g. an IPv6 literal mapped/truncated to IPv4)" % (fam, fmt(recv)[:100]))
         ext = [c for c in calls_norm(body, "Vec::extend_from_slice") if len(c.args) > 1]
         srcs = [fmt(o.of_operand(c.args[1])) for c in ext]
         okd = any(s == "destination.0" for s in srcs)
@@ -361,6 +368,48 @@ def r4_plumbing(ctx):
             ctx.ob("R07.4", "udp-server:domain-port", ok, rs[0].site, "resolver is given the decoded port" if ok else "resolver port is %s" % fmt(t1))
 
 
+def r7_cache_discipline(ctx):
+    """the resolver cache: entries are keyed by the requested host; an entry's expiry is fixed when it is inserted"""
+    body = co(ctx, "R07.7", RESOLVE)
+    if body is not None:
+        o = ctx.origins(body)
+        n = 0
+        for c in calls_norm(body, "DnsCache::get", "DnsCache::advance", "DnsCache::insert"):
+            n += 1
+            k = o.of_operand(c.args[1])
+            ok = var_name(k) == "host" or (is_call_term(k, "::to_string", "::to_owned", "String::from") and var_name(k[3][0]) == "host")
+            ctx.ob("R07.7", "resolve:cache-key|%s#%d" % (c.norm.split("::")[-1], n), ok, c.site, "cache accessed under the requested host" if ok else "cache %s keyed by `%s`, not by the requested host" % (c.norm.split("::")[-1], fmt(k)[:60]))
+        ctx.floor("R07.7", "cache accesses in resolve_host_with_cache", n, 4)
+    writers = []
+    for key, b in ctx.P.scan():
+        if not key.startswith("util::dns_cache::"):
+            continue
+        for bi in b.reachable():
+            for st in b.blocks[bi]["stmts"]:
+                if st["s"] == "assign" and st["place"]["proj"]:
+                    fl = [e for e in st["place"]["proj"] if e["p"] == "field"]
+                    if fl and fl[-1].get("name") == "expires_at":
+                        writers.append((key, st["span"]["line"]))
+    ctx.ob("R07.8", "dns-cache:expiry-fixed-at-insert", not writers, "", "CacheEntry.expires_at is set only by the struct literal in DnsCache::insert" if not writers else
+           "CacheEntry.expires_at is re-assigned in %s (line %s): the lifetime becomes sliding, so a name that is requested regularly is never resolved again and requests keep going to an address that no longer belongs to the name" % (writers[0][0].split("::{closure")[0], writers[0][1]))
+    ins = co(ctx, "R07.8", "util::dns_cache::DnsCache::insert")
+    if ins is not None:
+        oi = ctx.origins(ins)
+        ok = False
+        for bi in ins.reachable():
+            for st in ins.blocks[bi]["stmts"]:
+                if st["s"] == "assign" and st["rv"]["r"] == "aggregate" and st["rv"]["kind"].get("adt", "").endswith("CacheEntry"):
+                    ops = {f: oi.of_operand(op) for f, op in zip(st["rv"]["kind"]["fields"], st["rv"]["ops"])}
+                    e = ops.get("expires_at")
+                    ok = any(is_call_term(s, "Instant::now") for s in subterms(e)) and "DEFAULT_TTL" in fmt(e)
+        ctx.ob("R07.8", "dns-cache:entry-expires-after-TTL", ok, "", "expires_at = Instant::now() + DEFAULT_TTL at insertion" if ok else "a cache entry's expiry is not now + DEFAULT_TTL")
+    g = co(ctx, "R07.8", "util::dns_cache::DnsCache::get")
+    if g is not None:
+        cg_ = ctx.conds(g)
+        ok = any(c.kind == "bool" and "expires_at" in fmt(c.term) and any(is_call_term(s, "Instant::now") for s in subterms(c.term)) for c in cg_.all())
+        ctx.ob("R07.8", "dns-cache:get-honours-expiry", ok, "", "get() compares now with the entry's expires_at" if ok else "DnsCache::get does not test the entry's expiry")
+
+
 def r5_domain_len(ctx):
     body = co(ctx, "R07.5", "client::client::Client::create_proxy_stream")
     if body is None:
@@ -379,4 +428,5 @@ def run(ctx):
     r2_byte_order(ctx)
     r3_atyp_tables(ctx)
     r4_plumbing(ctx)
+    r7_cache_discipline(ctx)
     r5_domain_len(ctx)
